@@ -29,6 +29,7 @@ class Gen:
         self.dist = {}
         self.parties = []
         self.fninfo = {}
+        self.hidden = set()
 
     # ---- bookkeeping --------------------------------------------------------------------------
     def _sync(self):
@@ -36,7 +37,7 @@ class Gen:
             self.scope.append(self.cur[-1])
 
     def _visible(self, r):
-        if self.m.regs[r] is DEAD:
+        if self.m.regs[r] is DEAD or r in self.hidden:
             return False
         s = self.scope[r]
         return s == 0 or s == self.cur[-1] or (self.escapes and s in self.cur)
@@ -71,6 +72,9 @@ class Gen:
         self.dist[cmd["op"]] = self.dist.get(cmd["op"], 0) + 1
         err = self.m.exec(cmd)
         self._sync()
+        if cmd["op"] == "arrayOf" and err is None:
+            # `Array(x, size)` re-types the Input behind x: the scalar wrapper must not be used any more
+            self.hidden.add(cmd["r"])
         return err
 
     # ---- command builders ---------------------------------------------------------------------
@@ -319,13 +323,15 @@ class Gen:
     def last(self):
         return len(self.m.regs) - 1
 
-    def scenario(self):
+    SCENARIOS = ["diamond", "captured", "chain", "sites", "zipmap", "nestedzip", "sharedlit", "matrix"]
+
+    def scenario(self, k=None):
         rng = self.rng
         if len(self.cur) > 1:
             return None
-        k = rng.choice(["diamond", "diamond", "captured", "chain", "sites", "zipmap", "nestedzip", "sharedlit", "matrix"])
+        k = k or rng.choice(self.SCENARIOS + ["diamond", "zipmap"])
         self.dist["scenario:" + k] = self.dist.get("scenario:" + k, 0) + 1
-        T = rng.choice(["SecretInteger", "SecretInteger", "PublicInteger", "SecretUnsignedInteger"])
+        T = rng.choice(["SecretInteger", "SecretInteger", "PublicInteger", "PublicInteger", "SecretUnsignedInteger", "PublicBoolean"])
         op = lambda: rng.choice(["add", "sub", "mul"])  # noqa: E731
 
         def fn1(ret_of):
@@ -446,7 +452,7 @@ class Gen:
 
     def compile_now(self, prefer=()):
         rng = self.rng
-        cands = [r for r in range(len(self.m.regs)) if self.scope[r] == 0 and self.m.regs[r] is not DEAD
+        cands = [r for r in range(len(self.m.regs)) if self.scope[r] == 0 and self.m.regs[r] is not DEAD and r not in self.hidden
                  and describe(self.m.regs[r])[0] in ("scalar", "array", "tuple", "ntuple", "object")]
         if not cands:
             return None
@@ -478,9 +484,25 @@ class Gen:
         return self.m
 
 
-def generate(seed_tag, index, max_cmds=25, escapes=False):
-    rng = R.make(f"{seed_tag}:{index}")
+def generate(seed_tag, index, max_cmds=25, escapes=False, scenario=None):
+    rng = R.make(f"{seed_tag}:{index}:{scenario}")
     reset_globals()
     g = Gen(rng, max_cmds=max_cmds, escapes=escapes)
-    m = g.program()
+    if scenario is None:
+        m = g.program()
+    else:
+        # a program made of one structured scenario (plus a little random context)
+        g.do({"op": "party", "name": "P0"})
+        g.parties.append(0)
+        if rng.random() < 0.5:
+            g.do({"op": "party", "name": "Q1"})
+            g.parties.append(len(g.m.regs) - 1)
+        g.new_input()
+        g.scenario(scenario)
+        for _ in range(rng.randint(0, 4)):
+            g.gen_one()
+        live = [r for r in range(len(g.m.regs)) if g.scope[r] == 0 and g.m.regs[r] is not DEAD and r not in g.hidden
+                and describe(g.m.regs[r])[0] in ("scalar", "array", "tuple")]
+        g.compile_now(prefer=live[-3:][::-1])
+        m = g.m
     return m, g.dist
